@@ -13,9 +13,14 @@ record without SNVs, `.ok (some lines)` with one line per SNVPOS entry, or the e
   REF, ALT1, ALT2, …, so REF's base is allele 0, and the printed REF/ALT bases are exactly the numbered ones;
 * `marginal_spec`, `ac_marginal`, `acp_marginal`, `acp_sums_to_ploidy`: AC / ACP / DS are the haplotype-level
   counts marginalised to the site;
-* totality: `block_no_snv`; `block_total_partial` carries the exact excluded shapes as hypotheses
-  (ALT present — F8; every site has an alternative base — F9; posterior counts without missing entries);
-  `no_alt_crash`, `monomorphic_crash` prove that the excluded shapes do abort the program (the code as it is).
+* totality: `block_no_snv`, `block_total` (every record shape of the calling programs: ALT may be `.`, a site may
+  have no alternative base, posterior counts may hold `.`, SQ may be missing; the hypotheses are only the
+  well-formedness of a haplotype VCF: SNVPOS inside the haplotypes, GT alleles listed, at most one posterior count
+  per haplotype, at most four bases per site, one SNVDP value per SNV);
+  `block_line_shape`, `monomorphic_site_line`, `no_alt_all_monomorphic`, `missing_counts_are_missing`: what is
+  printed on those shapes (ALT `.`, AC / DS `.`, GT all 0; missing ACP/DS).
+  History: before the repairs of F8 / F9 / N1 the model carried the crashes as error outcomes and totality was
+  `block_total_partial` with the shapes excluded (`no_alt_crash`, `monomorphic_crash`).
 -/
 namespace MCHap.C20
 open MCHap MCHap.Atomize
@@ -31,7 +36,6 @@ theorem block_ok_unfold (r : HapRecord) (lines : List SnvLine) (h : block r = .o
       mapE (sampleCounts hs.length) r.samples = .ok counts ∧
       mapE (fun siteIdx => mapE (fun sc => sampleSiteACP siteIdx sc.1.gt.length sc.2) (r.samples.zip counts))
         (snvIndices hs snvpos.length) = .ok acp ∧
-      (List.range snvpos.length).any (fun k => (formatSnvAlleles hs k).2.length == 0) = false ∧
       depths snvpos.length r.samples = .ok dps ∧
       lines = blockLines r snvpos hs gts acp dps := by
   unfold block at h
@@ -53,14 +57,10 @@ theorem block_ok_unfold (r : HapRecord) (lines : List SnvLine) (h : block r = .o
           · rename_i acp hacp
             split at h
             · simp at h
-            · rename_i hmono
-              split at h
-              · simp at h
-              · rename_i dps hdps
-                refine ⟨snvpos, hs, gts, counts, acp, dps, hsp, hhs, hgts, hcounts, hacp, ?_, hdps, ?_⟩
-                · simpa using hmono
-                · simp only [Except.ok.injEq, Option.some.injEq] at h
-                  exact h.symm
+            · rename_i dps hdps
+              refine ⟨snvpos, hs, gts, counts, acp, dps, hsp, hhs, hgts, hcounts, hacp, hdps, ?_⟩
+              simp only [Except.ok.injEq, Option.some.injEq] at h
+              exact h.symm
 
 /-! ## POS, PS, GT -/
 
@@ -69,7 +69,7 @@ theorem pos_spec (r : HapRecord) (lines : List SnvLine) (h : block r = .ok (some
     ∃ snvpos, r.snvpos = some snvpos ∧ lines.length = snvpos.length ∧
       ∀ (k p : ℕ), snvpos[k]? = some p →
         ∃ line : SnvLine, lines[k]? = some line ∧ line.pos = r.pos + p - 1 ∧ line.ps = r.pos := by
-  obtain ⟨snvpos, hs, gts, counts, acp, dps, hsp, _, _, _, _, _, _, hl⟩ := block_ok_unfold r lines h
+  obtain ⟨snvpos, hs, gts, counts, acp, dps, hsp, _, _, _, _, _, hl⟩ := block_ok_unfold r lines h
   refine ⟨snvpos, hsp, by simp [hl, blockLines], ?_⟩
   intro k p hk
   have hlt : k < snvpos.length := (List.getElem?_eq_some_iff.mp hk).1
@@ -129,7 +129,7 @@ theorem block_gts (r : HapRecord) (lines : List SnvLine) (h : block r = .ok (som
       ∀ k line, k < snvpos.length → lines[k]? = some line →
         line.gts = r.samples.map (fun s =>
           s.gt.map (Option.map (fun h => (indexLoop (column hs k) []).getD h 0))) := by
-  obtain ⟨snvpos, hs, gts, counts, acp, dps, hsp, hhs, hgts, _, _, _, _, hl⟩ := block_ok_unfold r lines h
+  obtain ⟨snvpos, hs, gts, counts, acp, dps, hsp, hhs, hgts, _, _, _, hl⟩ := block_ok_unfold r lines h
   refine ⟨snvpos, hs, hsp, hhs, ?_⟩
   intro k line hk hline
   subst hl
@@ -158,6 +158,25 @@ theorem block_gts (r : HapRecord) (lines : List SnvLine) (h : block r = .ok (som
     obtain ⟨g, hg, hgs⟩ := mapE_getElem? hmap i s hs_i
     rw [hg]
     simp [((gt_projection _ _ _).mp hgs).2]
+
+/-- REF / ALT / INFO/AC of line `k` are the site's first-appearance alleles and the marginal counts of the
+    called haplotype copies (`haplotypeCounts` = how often each listed haplotype occurs in the GT columns) -/
+theorem block_alleles_ac (r : HapRecord) (lines : List SnvLine) (h : block r = .ok (some lines)) :
+    ∃ snvpos hs, r.snvpos = some snvpos ∧ haplotypeSnvs r snvpos = .ok hs ∧
+      ∀ (k : ℕ) (line : SnvLine), k < snvpos.length → lines[k]? = some line →
+        line.ref = (formatSnvAlleles hs k).1 ∧ line.alts = (formatSnvAlleles hs k).2 ∧
+        line.ac = siteAC (indexLoop (column hs k) []) (haplotypeCounts hs.length r.samples)
+          (formatSnvAlleles hs k).2.length := by
+  obtain ⟨snvpos, hs, gts, counts, acp, dps, hsp, hhs, _, _, _, _, hl⟩ := block_ok_unfold r lines h
+  refine ⟨snvpos, hs, hsp, hhs, ?_⟩
+  intro k line hk hline
+  subst hl
+  simp only [blockLines, List.getElem?_map, List.getElem?_range hk, Option.map_some,
+    Option.some.injEq] at hline
+  subst hline
+  have hidx : (snvIndices hs snvpos.length)[k]? = some (indexLoop (column hs k) []) := by
+    simp [snvIndices, List.getElem?_map, List.getElem?_range hk]
+  simp [List.getD_eq_getElem?_getD, hidx]
 
 /-! ## numbering -/
 
@@ -286,44 +305,16 @@ theorem acp_sums_to_ploidy (siteIdx : List ℕ) (ploidy : ℕ) (c : List ℚ) (v
 theorem block_no_snv (r : HapRecord) (h : r.snvpos = none) : block r = .ok none := by
   unfold block; rw [h]
 
-/-- candidate defect F8, as the code is: a record with SNVs and no ALT aborts the program with `TypeError` -/
-theorem no_alt_crash (r : HapRecord) (snvpos : List ℕ) (hs : r.snvpos = some snvpos) (ha : r.alts = none) :
-    block r = .error .typeError := by
-  unfold block; rw [hs]; simp [haplotypeSnvs, ha]
-
-/-- candidate defect F9, as the code is: a record with a site at which no listed haplotype carries an
-    alternative base is never answered with lines — the program aborts -/
-theorem monomorphic_crash (r : HapRecord) (snvpos : List ℕ) (hs : List (List Char))
-    (hsp : r.snvpos = some snvpos) (hhs : haplotypeSnvs r snvpos = .ok hs)
-    (hmono : ∃ k, k < snvpos.length ∧ (formatSnvAlleles hs k).2 = []) :
-    ∃ e, block r = .error e := by
-  cases hb : block r with
-  | error e => exact ⟨e, rfl⟩
-  | ok o =>
-    cases o with
-    | none => unfold block at hb; rw [hsp] at hb; simp only [hhs] at hb; split at hb <;> (try split at hb) <;>
-                (try split at hb) <;> (try split at hb) <;> (try split at hb) <;> simp at hb
-    | some lines =>
-      obtain ⟨sp', hs', _, _, _, _, hsp', hhs', _, _, _, hm, _, _⟩ := block_ok_unfold r lines hb
-      rw [hsp] at hsp'; cases hsp'
-      rw [hhs] at hhs'; cases hhs'
-      obtain ⟨k, hk, he⟩ := hmono
-      have : (List.range snvpos.length).any (fun k => (formatSnvAlleles hs k).2.length == 0) = true := by
-        rw [List.any_eq_true]
-        exact ⟨k, List.mem_range.mpr hk, by simp [he]⟩
-      rw [this] at hm; cases hm
-
-/-- the outcome of a run as a comparable value: 1/2/3 = TypeError/IndexError/ValueError, 10 = skipped,
-    100 + n = n lines -/
+/-- the outcome of a run as a comparable value: 2/3 = IndexError/ValueError, 10 = skipped, 100 + n = n lines -/
 def outcome (x : Except Err (Option (List SnvLine))) : ℕ :=
   match x with
-  | .error .typeError => 1
   | .error .indexError => 2
   | .error .valueError => 3
   | .ok none => 10
   | .ok (some l) => 100 + l.length
 
-/-- minimal records (1 sample, diploid): no ALT with one SNV; one ALT with a site it does not touch -/
+/-- minimal records (1 sample, diploid): no ALT with one SNV (formerly F8); one ALT with a site it does not
+    touch (formerly F9); an AF0 record with `.` for GT, SQ and ACP (formerly N1 / N2) -/
 def recNoAlt : HapRecord :=
   { pos := 10, id := some "x", ref := "ACGT".toList, alts := none, snvpos := some [2],
     samples := [{ gt := [some 0, some 0], sq := some 9, acp := none, afp := none, snvdp := none }] }
@@ -332,64 +323,106 @@ def recMono : HapRecord :=
   { pos := 10, id := some "x", ref := "ACGT".toList, alts := some ["AGGT".toList], snvpos := some [2, 4],
     samples := [{ gt := [some 0, some 1], sq := some 9, acp := none, afp := none, snvdp := none }] }
 
+def recAF0 : HapRecord :=
+  { pos := 10, id := some "x", ref := "ACGT".toList, alts := some ["AGGT".toList], snvpos := some [2],
+    samples := [{ gt := [none, none], sq := none, acp := some [none], afp := none, snvdp := none }] }
+
 def recGood : HapRecord :=
   { pos := 10, id := some "x", ref := "ACGT".toList, alts := some ["AGGT".toList, "ACGA".toList],
     snvpos := some [2, 4],
     samples := [{ gt := [some 0, some 1, some 2, none], sq := some 9, acp := none,
                   afp := none, snvdp := none }] }
 
-/-- the `TypeError` of F8 and the `IndexError` of F9 -/
-example : outcome (block recNoAlt) = 1 := by decide
-example : outcome (block recMono) = 2 := by decide
+/-- all four are answered with one line per SNV -/
+example : outcome (block recNoAlt) = 101 ∧ outcome (block recMono) = 102 ∧ outcome (block recAF0) = 101 ∧
+    outcome (block recGood) = 102 := by decide
 
-/-- well-formedness of the posterior counts a sample carries: no missing entry, at most one per listed haplotype -/
-def CountsOK (nHap : ℕ) (s : Sample) : Prop :=
-  (∀ c, s.acp = some c → c.length ≤ nHap ∧ ∀ x ∈ c, x ≠ none) ∧
-  (s.acp = none → ∀ f, s.afp = some f → f.length ≤ nHap ∧ ∀ x ∈ f, x ≠ none)
+/-- the second line of `recMono` is the site without alternative base: ALT `.`, AC `.`, GT `0|0`, DS `.` -/
+example : (match block recMono with
+    | .ok (some [_, l]) => (l.alts, l.ac, l.gts, l.ds)
+    | _ => (['?'], [], [], [])) = ([], [], [[some 0, some 0]], [[]]) := by decide
 
-theorem sampleCounts_total (nHap : ℕ) (s : Sample) (h : CountsOK nHap s) :
+theorem usable_length {v : Option (List (Option ℚ))} {c : List ℚ} (h : usable v = some c) :
+    ∃ c0, v = some c0 ∧ c.length = c0.length := by
+  unfold usable at h
+  cases v with
+  | none => simp at h
+  | some c0 =>
+    simp only at h
+    split at h
+    · simp at h
+    · simp only [Option.some.injEq] at h
+      exact ⟨c0, rfl, by simp [← h]⟩
+
+/-- at most one posterior count per listed haplotype -/
+def CountsLen (nHap : ℕ) (s : Sample) : Prop :=
+  (∀ c, s.acp = some c → c.length ≤ nHap) ∧ (∀ f, s.afp = some f → f.length ≤ nHap)
+
+theorem sampleCounts_total (nHap : ℕ) (s : Sample) (h : CountsLen nHap s) :
     ∃ o, sampleCounts nHap s = .ok o := by
   unfold sampleCounts
-  have hany : ∀ c : List (Option ℚ), (∀ x ∈ c, x ≠ none) → c.any Option.isNone = false := by
-    intro c hc
-    rw [Bool.eq_false_iff]
-    intro hcon
-    rw [List.any_eq_true] at hcon
-    obtain ⟨x, hx, hn⟩ := hcon
-    cases x with
-    | none => exact hc none hx rfl
-    | some _ => simp at hn
-  cases hacp : s.acp with
+  simp only
+  cases hacp : usable s.acp with
   | some c =>
-    obtain ⟨hl, hn⟩ := h.1 c hacp
-    have : ¬ c.length > nHap := by omega
-    simp [hany c hn, this]
+    obtain ⟨c0, hc0, hl⟩ := usable_length hacp
+    have : ¬ c.length > nHap := by have := h.1 c0 hc0; omega
+    simp [this]
   | none =>
-    cases hafp : s.afp with
+    cases hafp : usable s.afp with
     | none => simp
     | some f =>
-      obtain ⟨hl, hn⟩ := h.2 hacp f hafp
-      have : ¬ f.length > nHap := by omega
-      simp [hany f hn, this]
+      obtain ⟨f0, hf0, hl⟩ := usable_length hafp
+      have : ¬ f.length > nHap := by have := h.2 f0 hf0; omega
+      simp [this]
 
-/-- **Totality, partial on the current tree.**  A record with SNVs is answered with one line per SNVPOS entry
-    provided that: ALT is present (excludes F8), every SNVPOS entry lies inside every listed haplotype, every GT
-    allele is a listed haplotype, posterior counts have no missing entry (excludes the AF0 records), a site has at
-    most four distinct bases, **every site has an alternative base among the listed haplotypes** (excludes F9),
-    and FORMAT/SNVDP has one value per SNV. -/
-theorem block_total_partial (r : HapRecord) (snvpos : List ℕ) (alts : List (List Char))
-    (hsp : r.snvpos = some snvpos) (halts : r.alts = some alts)
-    (hpos : ∀ hap ∈ r.ref :: alts, ∀ p ∈ snvpos, 1 ≤ p ∧ p ≤ hap.length)
-    (hgt : ∀ s ∈ r.samples, ∀ h, some h ∈ s.gt → h ≤ alts.length)
-    (hcounts : ∀ s ∈ r.samples, CountsOK (alts.length + 1) s)
+/-- a sample whose FORMAT/ACP holds a `.` and whose FORMAT/AFP is absent or holds a `.` (the AF0 / NOA records of
+    call and call-pedigree) has unknown posterior counts: its DS and the site's ACP are missing, nothing is raised -/
+theorem missing_counts_are_missing (nHap : ℕ) (s : Sample)
+    (hacp : s.acp = none ∨ ∃ c, s.acp = some c ∧ none ∈ c)
+    (hafp : s.afp = none ∨ ∃ f, s.afp = some f ∧ none ∈ f) :
+    sampleCounts nHap s = .ok none ∧
+    ∀ siteIdx ploidy, sampleSiteACP siteIdx ploidy none = .ok none := by
+  have hu : ∀ v : Option (List (Option ℚ)), (v = none ∨ ∃ c, v = some c ∧ none ∈ c) → usable v = none := by
+    intro v hv
+    rcases hv with rfl | ⟨c, rfl, hc⟩
+    · rfl
+    · have : c.any Option.isNone = true := List.any_eq_true.mpr ⟨none, hc, rfl⟩
+      simp [usable, this]
+  refine ⟨?_, fun _ _ => rfl⟩
+  unfold sampleCounts
+  simp [hu _ hacp, hu _ hafp]
+
+theorem sampleSiteACP_length {siteIdx : List ℕ} {p : ℕ} {c : Option (List ℚ)} {o : Option (List ℚ)}
+    (h : sampleSiteACP siteIdx p c = .ok o) : ∀ v, o = some v → v.length = 4 := by
+  intro v hv
+  subst hv
+  cases c with
+  | none => simp [sampleSiteACP] at h
+  | some c =>
+    unfold sampleSiteACP at h
+    simp only at h
+    split at h
+    · simp at h
+    · split at h
+      · simp at h
+      · simp only [Except.ok.injEq, Option.some.injEq] at h
+        simp [← h]
+
+/-- **Totality.**  Every record with SNVs whose text is a haplotype VCF — each SNVPOS entry inside every listed
+    haplotype, every GT allele a listed haplotype, at most one posterior count per haplotype, at most four bases per
+    site, one FORMAT/SNVDP value per SNV — is answered with one line per SNVPOS entry.  ALT may be `.`, a site may
+    lack an alternative base, ACP / AFP / SQ may hold `.`. -/
+theorem block_total (r : HapRecord) (snvpos : List ℕ)
+    (hsp : r.snvpos = some snvpos)
+    (hpos : ∀ hap ∈ r.ref :: r.alts.getD [], ∀ p ∈ snvpos, 1 ≤ p ∧ p ≤ hap.length)
+    (hgt : ∀ s ∈ r.samples, ∀ h, some h ∈ s.gt → h ≤ (r.alts.getD []).length)
+    (hcounts : ∀ s ∈ r.samples, CountsLen ((r.alts.getD []).length + 1) s)
     (hdp : ∀ s ∈ r.samples, ∀ d, s.snvdp = some d → d.length = snvpos.length)
     (hfour : ∀ hs, haplotypeSnvs r snvpos = .ok hs → ∀ k, k < snvpos.length →
-      (firstAppear (column hs k)).length ≤ 4)
-    (hpoly : ∀ hs, haplotypeSnvs r snvpos = .ok hs → ∀ k, k < snvpos.length →
-      (formatSnvAlleles hs k).2 ≠ []) :
+      (firstAppear (column hs k)).length ≤ 4) :
     ∃ lines, block r = .ok (some lines) ∧ lines.length = snvpos.length := by
   -- step 1: get_haplotype_snvs
-  have hbases : ∀ hap ∈ r.ref :: alts, ∃ row, basesAt hap snvpos = .ok row := by
+  have hbases : ∀ hap ∈ r.ref :: r.alts.getD [], ∃ row, basesAt hap snvpos = .ok row := by
     intro hap hhap
     unfold basesAt
     apply mapE_total
@@ -399,13 +432,9 @@ theorem block_total_partial (r : HapRecord) (snvpos : List ℕ) (alts : List (Li
     have hlt : p - 1 < hap.length := by omega
     exact ⟨hap[p - 1], by simp [hp0, List.getElem?_eq_getElem hlt]⟩
   obtain ⟨hs, hhs⟩ : ∃ hs, haplotypeSnvs r snvpos = .ok hs := by
-    unfold haplotypeSnvs; rw [halts]; exact mapE_total _ hbases
-  have hhslen : hs.length = alts.length + 1 := by
-    have h' : mapE (fun h => basesAt h snvpos) (r.ref :: alts) = .ok hs := by
-      have := hhs
-      unfold haplotypeSnvs at this
-      rw [halts] at this
-      exact this
+    unfold haplotypeSnvs; exact mapE_total _ hbases
+  have hhslen : hs.length = (r.alts.getD []).length + 1 := by
+    have h' : mapE (fun h => basesAt h snvpos) (r.ref :: r.alts.getD []) = .ok hs := hhs
     simpa using mapE_length h'
   -- the allele numbers of a site: one per haplotype, each < number of distinct bases ≤ 4
   have hsite : ∀ siteIdx ∈ snvIndices hs snvpos.length,
@@ -466,15 +495,7 @@ theorem block_total_partial (r : HapRecord) (snvpos : List ℕ) (alts : List (Li
       split
       · exact ⟨none, rfl⟩
       · exact ⟨_, rfl⟩
-  -- step 4: no site without alternative base
-  have hmono : (List.range snvpos.length).any (fun k => (formatSnvAlleles hs k).2.length == 0) = false := by
-    rw [Bool.eq_false_iff]
-    intro hcon
-    rw [List.any_eq_true] at hcon
-    obtain ⟨k, hk, he⟩ := hcon
-    have := hpoly hs hhs k (List.mem_range.mp hk)
-    simp at he; exact this he
-  -- step 5: depths
+  -- step 4: depths
   obtain ⟨dps, hdps⟩ : ∃ dps, depths snvpos.length r.samples = .ok dps := by
     unfold depths
     apply mapE_total
@@ -485,10 +506,113 @@ theorem block_total_partial (r : HapRecord) (snvpos : List ℕ) (alts : List (Li
   refine ⟨blockLines r snvpos hs gts acp dps, ?_, by simp [blockLines]⟩
   unfold block
   rw [hsp]
-  simp only [hhs, hgts, hcnt, hacp, hmono, hdps]
-  rfl
+  simp only [hhs, hgts, hcnt, hacp, hdps]
 
-/-- non-vacuity: a record satisfying every hypothesis of `block_total_partial` is answered with two lines -/
-example : outcome (block recGood) = 102 := by decide
+/-- shape of every printed line: as many AC values as ALT bases, one ACP value more, one GT and one DS entry per
+    sample, and (sites have at most three alternative bases) as many DS values as ALT bases -/
+theorem block_line_shape (r : HapRecord) (lines : List SnvLine) (h : block r = .ok (some lines)) :
+    ∀ (k : ℕ) (line : SnvLine), lines[k]? = some line →
+      line.ac.length = line.alts.length ∧ line.acp.length = line.alts.length + 1 ∧
+      line.pq.length = r.samples.length ∧
+      (line.alts.length ≤ 3 → ∀ row ∈ line.ds, row.length = line.alts.length) := by
+  obtain ⟨snvpos, hs, gts, counts, acp, dps, hsp, hhs, _, _, hacp, _, hl⟩ := block_ok_unfold r lines h
+  intro k line hline
+  subst hl
+  have hk : k < snvpos.length := by
+    have := (List.getElem?_eq_some_iff.mp hline).1
+    simpa [blockLines] using this
+  simp only [blockLines, List.getElem?_map, List.getElem?_range hk, Option.map_some,
+    Option.some.injEq] at hline
+  subst hline
+  refine ⟨by simp [siteAC], by simp, by simp, ?_⟩
+  intro hna row hrow
+  dsimp only at hna hrow ⊢
+  simp only [List.mem_map] at hrow
+  obtain ⟨row0, ⟨o, ho, rfl⟩, rfl⟩ := hrow
+  cases o with
+  | none => simp
+  | some v =>
+    -- `v` is a row produced by `sampleSiteACP`: four slots
+    have hidx : (snvIndices hs snvpos.length)[k]? = some (indexLoop (column hs k) []) := by
+      simp [snvIndices, List.getElem?_map, List.getElem?_range hk]
+    obtain ⟨ak, hak, hmap⟩ := mapE_getElem? hacp k _ hidx
+    rw [List.getD_eq_getElem?_getD, hak, Option.getD_some] at ho
+    obtain ⟨sc, _, hsc⟩ := mapE_mem hmap _ ho
+    have hv := sampleSiteACP_length hsc v rfl
+    simp only [List.length_drop, List.length_map, List.length_take]
+    omega
+
+theorem mono_idx_zero (col : List Char) (hfa : (firstAppear col).length ≤ 1) :
+    ∀ h, (indexLoop col []).getD h 0 = 0 := by
+  intro h
+  rw [List.getD_eq_getElem?_getD]
+  cases hi : (indexLoop col [])[h]? with
+  | none => rfl
+  | some i =>
+    obtain ⟨_, _, h3, _⟩ := numbering_first_appearance col
+    have hlt : h < col.length := by
+      have := (List.getElem?_eq_some_iff.mp hi).1
+      simpa [indexLoop_length] using this
+    obtain ⟨j, hj, hf⟩ := h3 h _ (List.getElem?_eq_getElem hlt)
+    rw [hi] at hj
+    simp only [Option.some.injEq] at hj
+    subst hj
+    have := (List.getElem?_eq_some_iff.mp hf).1
+    simp only [Option.getD_some]
+    omega
+
+/-- a site at which no listed haplotype carries an alternative base (formerly the crash F9) is printed with
+    ALT `.`, AC `.`, a single ACP value, DS `.` for every sample, and every called GT entry projected to 0 -/
+theorem monomorphic_site_line (r : HapRecord) (lines : List SnvLine) (h : block r = .ok (some lines)) :
+    ∃ snvpos hs, r.snvpos = some snvpos ∧ haplotypeSnvs r snvpos = .ok hs ∧
+      ∀ (k : ℕ) (line : SnvLine), k < snvpos.length → lines[k]? = some line →
+        (formatSnvAlleles hs k).2 = [] →
+          line.alts = [] ∧ line.ac = [] ∧ line.acp.length = 1 ∧ (∀ row ∈ line.ds, row = []) ∧
+          ∀ g ∈ line.gts, ∀ a ∈ g, a = none ∨ a = some 0 := by
+  obtain ⟨snvpos, hs, hsp, hhs, hac⟩ := block_alleles_ac r lines h
+  obtain ⟨snvpos', hs', hsp', hhs', hgts⟩ := block_gts r lines h
+  rw [hsp] at hsp'; cases hsp'
+  rw [hhs] at hhs'; cases hhs'
+  refine ⟨snvpos, hs, hsp, hhs, ?_⟩
+  intro k line hk hline hmono
+  obtain ⟨_, halts, hacv⟩ := hac k line hk hline
+  obtain ⟨h1, h2, _, h4⟩ := block_line_shape r lines h k line hline
+  have ha0 : line.alts = [] := by rw [halts, hmono]
+  have hlen0 : line.alts.length = 0 := by simp [ha0]
+  refine ⟨ha0, ?_, by omega, ?_, ?_⟩
+  · exact List.eq_nil_of_length_eq_zero (by omega)
+  · intro row hrow
+    exact List.eq_nil_of_length_eq_zero (by rw [h4 (by omega) row hrow]; exact hlen0)
+  · have hfa : (firstAppear (column hs k)).length ≤ 1 := by
+      have : (firstAppear (column hs k)).tail = [] := hmono
+      have hl := congrArg List.length this
+      simp only [List.length_tail, List.length_nil] at hl
+      omega
+    rw [hgts k line hk hline]
+    intro g hg a ha
+    simp only [List.mem_map] at hg
+    obtain ⟨s, _, rfl⟩ := hg
+    simp only [List.mem_map] at ha
+    obtain ⟨a0, _, rfl⟩ := ha
+    cases a0 with
+    | none => exact Or.inl rfl
+    | some x =>
+      refine Or.inr ?_
+      simp only [Option.map_some]
+      rw [mono_idx_zero _ hfa x]
+
+/-- a record without ALT (formerly the crash F8): the reference is the only listed haplotype, so every site of
+    SNVPOS is of that kind -/
+theorem no_alt_all_monomorphic (r : HapRecord) (snvpos : List ℕ) (hs : List (List Char))
+    (ha : r.alts = none) (hhs : haplotypeSnvs r snvpos = .ok hs) :
+    ∀ k, (formatSnvAlleles hs k).2 = [] := by
+  intro k
+  unfold haplotypeSnvs at hhs
+  rw [ha] at hhs
+  simp only [Option.getD_none] at hhs
+  obtain ⟨row, bt, _, hbt, rfl⟩ := mapE_ok_cons hhs
+  simp only [mapE, Except.ok.injEq] at hbt
+  subst hbt
+  simp [formatSnvAlleles, column, firstAppear, firstAppearFrom]
 
 end MCHap.C20
